@@ -146,7 +146,30 @@ fn run(case: &Val) -> Val {
             let me = log::log_enabled!(target: &target, lvl);
             rec.lock().unwrap().clear();
             log::log!(target: &target, lvl, "m");
-            let ev = rec.lock().unwrap();
+            let ev = rec.lock().unwrap().clone();
+            // the same (target, level) as a hand-built record whose OTHER metadata name configured loggers (module
+            // path = the name of a configured logger, file and line set): only target and level decide
+            let lgs = cfg.l()[2].l();
+            let decoy: Option<String> = lgs.get(obs.len() % lgs.len().max(1)).map(|lg| lg.l()[0].str());
+            rec.lock().unwrap().clear();
+            if (lvl as usize) <= (log::max_level() as usize) {
+                log::logger().log(
+                    &log::Record::builder()
+                        .level(lvl)
+                        .target(&target)
+                        .module_path(decoy.as_deref())
+                        .file(decoy.as_deref())
+                        .line(Some(7))
+                        .args(format_args!("m"))
+                        .build(),
+                );
+            }
+            let ev2 = rec.lock().unwrap().clone();
+            let mut ev = ev;
+            if ev2 != ev {
+                // shows up as a delivery the model does not know
+                ev.push(Val::text("a record with the same target and level but another module path was delivered differently"));
+            }
             obs.push(Val::L(vec![Val::bool(le), Val::bool(me), Val::L(ev.clone())]));
         }
         out.push(Val::L(vec![Val::N(gmax), Val::N(reported), Val::L(obs), dropped]));
